@@ -7,7 +7,7 @@ from harness.common import Check
 from harness.e1corpus import Item, describe, run_items
 
 BUDGET = {
-    "quick": {"shortcut": 30, "arith": 14, "control": 18, "memory": 14, "state": 12, "calls": 8, "alias": 6},
+    "quick": {"shortcut": 30, "arith": 14, "control": 18, "memory": 14, "state": 12, "calls": 16, "alias": 6},
     "thorough": {"shortcut": 400, "arith": 400, "control": 400, "memory": 300, "state": 300, "calls": 250, "alias": 150},
 }
 
